@@ -326,6 +326,49 @@ Definition postfix (rec : nat -> list token -> pres) (argl : list token -> ares)
   | _ => Ok None
   end.
 
+(* one pass of the `while True` loop of parse_arglist; argl = the rest of the loop *)
+Definition arglist_body (rec : nat -> list token -> pres)
+           (argl : list expr -> list (string * expr) -> bool -> list token -> ares)
+           (args : list expr) (kw : list (string * expr)) (comma_allowed : bool) (ts : list token) : ares :=
+  match ts with
+  | [] => ParseError
+  | t :: r =>
+    let sc := match t with TComma => true | _ => false end in
+    if sc && negb comma_allowed then ParseError       (* comma not expected *)
+    else
+      let ts1 := if sc then r else ts in
+      match ts1 with
+      | [] => ParseError
+      | TRPar :: r' => Ok (args, kw, r')
+      | _ =>
+        if negb sc && comma_allowed then ParseError   (* comma expected *)
+        else
+          match ts1 with
+          | TId k :: TAssign :: r2 =>
+            bind (rec PA_COMMA r2) (fun x => argl args (kw_set kw k (fst x)) true (snd x))
+          | _ =>
+            match kw with
+            | [] => bind (rec PA_COMMA ts1) (fun x => argl (args ++ [fst x])%list kw true (snd x))
+            | _ => ParseError                         (* positional after keyword argument *)
+            end
+          end
+      end
+  end.
+
+(* the body of the `while did_something` loop of parse_expression; again = the next iteration *)
+Definition loop_body (rec : nat -> list token -> pres) (argl : list token -> ares)
+           (again : expr -> bool -> list token -> pres)
+           (minp : nat) (left : expr) (fin : bool) (ts : list token) : pres :=
+  match ts with
+  | [] => Ok (left, [])
+  | _ =>
+    bind (postfix rec argl minp left fin ts) (fun o =>
+      match o with
+      | Some x => again (fst x) false (snd x)
+      | None => Ok (left, ts)
+      end)
+  end.
+
 Fixpoint parse_expr (fuel : nat) (minp : nat) (ts : list token) {struct fuel} : pres :=
   match fuel with
   | 0 => OutOfFuel
@@ -335,46 +378,13 @@ Fixpoint parse_expr (fuel : nat) (minp : nat) (ts : list token) {struct fuel} : 
 with loop (fuel : nat) (minp : nat) (left : expr) (fin : bool) (ts : list token) {struct fuel} : pres :=
   match fuel with
   | 0 => OutOfFuel
-  | S f =>
-    match ts with
-    | [] => Ok (left, [])
-    | _ =>
-      bind (postfix (parse_expr f) (arglist f [] [] false) minp left fin ts) (fun o =>
-        match o with
-        | Some x => loop f minp (fst x) false (snd x)
-        | None => Ok (left, ts)
-        end)
-    end
+  | S f => loop_body (parse_expr f) (arglist f [] [] false) (loop f minp) minp left fin ts
   end
 with arglist (fuel : nat) (args : list expr) (kw : list (string * expr)) (comma_allowed : bool)
              (ts : list token) {struct fuel} : ares :=
   match fuel with
   | 0 => OutOfFuel
-  | S f =>
-    match ts with
-    | [] => ParseError
-    | t :: r =>
-      let sc := match t with TComma => true | _ => false end in
-      if sc && negb comma_allowed then ParseError       (* comma not expected *)
-      else
-        let ts1 := if sc then r else ts in
-        match ts1 with
-        | [] => ParseError
-        | TRPar :: r' => Ok (args, kw, r')
-        | _ =>
-          if negb sc && comma_allowed then ParseError   (* comma expected *)
-          else
-            match ts1 with
-            | TId k :: TAssign :: r2 =>
-              bind (parse_expr f PA_COMMA r2) (fun x => arglist f args (kw_set kw k (fst x)) true (snd x))
-            | _ =>
-              match kw with
-              | [] => bind (parse_expr f PA_COMMA ts1) (fun x => arglist f (args ++ [fst x]) kw true (snd x))
-              | _ => ParseError                         (* positional after keyword argument *)
-              end
-            end
-        end
-    end
+  | S f => arglist_body (parse_expr f) (arglist f) args kw comma_allowed ts
   end.
 
 (* Parser.__call__ on the tokens that are not whitespace *)
